@@ -120,6 +120,11 @@ func (s *segment) setupIndex() (err error) {
 		return err
 	}
 	lastEntry, err := s.Index.InitializePosition()
+	if err == nil && lastEntry != nil && lastEntry.Position+int64(lastEntry.Size) > s.position {
+		// The index refers to data beyond the end of the log, e.g. because the
+		// process died after the log was replaced but before its index was.
+		err = errIndexCorrupt
+	}
 	if err != nil {
 		if err == errIndexCorrupt {
 			// Index is corrupt, attempt to rebuild from log file
@@ -242,6 +247,11 @@ func (s *segment) rebuildIndex() error {
 
 	// If log file is empty, we're done
 	if s.position == 0 {
+		// Set position to file size so InitializePosition() can search the
+		// (empty) entries.
+		s.Index.mu.Lock()
+		s.Index.position = s.Index.size
+		s.Index.mu.Unlock()
 		return nil
 	}
 
